@@ -144,12 +144,13 @@ def plan_for(ctx, n):
         # all (c, D) merge-base questions, all fast-forward pairs, every set in two orders for octopus /
         # independent; walks: all (include set, exclude set) pairs in the thorough tier
         return dict(full=True, full_mb=not ctx.quick, both_modes=True, n_mbm=8, n_oct=0, n_ind=0, full_walk=not ctx.quick,
-                    topo_frac=0.25, n_walk=10, n_walkopt=5, p_model=0.004)
+                    topo_frac=0.25, n_walk=10, n_walkopt=5, p_model=0.004, p_cover=ctx.pick(0.25, 1.0), n_cover=ctx.pick(2, 4))
     if n == 5:
         return dict(full=False, both_modes=False, n_mbm=4, n_oct=3, n_ind=2, full_walk=False,
-                    n_walk=4, n_walkopt=2, topo_frac=0.5, p_model=0.0005 if not ctx.quick else 0.004)
+                    n_walk=4, n_walkopt=2, topo_frac=0.5, p_model=0.0005 if not ctx.quick else 0.004,
+                    p_cover=ctx.pick(0.25, 0.05), n_cover=2)
     return dict(full=False, both_modes=False, n_mbm=6, n_oct=4, n_ind=3, full_walk=False,
-                n_walk=6, n_walkopt=3, topo_frac=0.5, p_model=0.001)
+                n_walk=6, n_walkopt=3, topo_frac=0.5, p_model=0.001, p_cover=0.05, n_cover=2)
 
 
 def replay_dump(ctx, pool, n, dump, label, budget_s):
@@ -376,43 +377,81 @@ def run_random(task):
                     nmiss += 1
         res["git"] = ng
         res["mismatch"] = nmiss
-        # --- the same questions with a commit-graph file (dulwich's writer, then git's)
+        # --- the same questions with a commit-graph file: complete, and stale/partial -- written when
+        #     only a down-closed part of the history existed (a prefix of the numbering = "the file was
+        #     written after commit b, more commits and merges straddling the boundary came later", or
+        #     everything reachable from a few commits = "only some branches were covered"); by
+        #     dulwich's writer and by git's.  A file written over a part of the history is byte for
+        #     byte the file that would have been written when only that part existed.
+        from dulwich.repo import Repo
+        full = list(range(1, n + 1))
+        b = rng.randint(1, n - 1)
+        tips2 = sorted(rng.sample(full, rng.randint(1, 2)))
+        covers = [("", full), ("-stale", list(range(1, b + 1))), ("-partial", L.set_of(ex.reach(L.mask_of(tips2))))]
         for writer in ("dulwich", "git") if have_git else ("dulwich",):
-            try:
-                if writer == "dulwich":
-                    repo.object_store.write_commit_graph(list(h.ids))
-                else:
-                    os.remove(os.path.join(disk_root, "objects", "info", "commit-graph"))
-                    subprocess.run(["git", "-C", disk_root, "commit-graph", "write", "--reachable"], check=True,
-                                   capture_output=True)
-            except Exception as e:        # writing the file is C14's business; here only its use counts
-                res.setdefault("cg_skipped", []).append(f"{writer}: {type(e).__name__}: {e}"[:120])
-                continue
-            from dulwich.repo import Repo
-            r2 = Repo(disk_root)
-            if r2.object_store.get_commit_graph() is None:
-                res.setdefault("cg_skipped", []).append(f"{writer}: commit-graph not loaded")
-                continue
-            h2 = L.Hist.__new__(L.Hist)
-            h2.__dict__.update(h.__dict__)
-            h2.repo = r2
-            qs2 = [q for q in ask(h2)]
-            for q in qs2:
-                ok, _ = ex.check(q)
-                q["pre"] = 1 if ok else 0
-                q["cg"] = writer
-                if not ok:
-                    q["m"] = 1
-            res["cg"] += len(qs2)
-            rec2 = h2.record(0, qs2)
-            rec2["mode"] = None
-            rec2["salt"] = seed
-            rec2["cg"] = writer
-            recs.append(rec2)
-            r2.close()
+            for kind, cover in covers:
+                if kind and len(cover) == n:
+                    continue
+                tag = writer + kind
+                try:
+                    write_commit_graph_file(disk_root, repo, h, par, writer, cover)
+                except Exception as e:        # writing the file is C14's business; here only its use counts
+                    res.setdefault("cg_skipped", []).append(f"{tag}: {type(e).__name__}: {e}"[:120])
+                    continue
+                r2 = Repo(disk_root)
+                g2 = r2.object_store.get_commit_graph()
+                if g2 is None or len(g2) != len(cover):
+                    res.setdefault("cg_skipped", []).append(f"{tag}: commit-graph not loaded or covers {None if g2 is None else len(g2)} != {len(cover)}")
+                    r2.close()
+                    continue
+                h2 = L.Hist.__new__(L.Hist)
+                h2.__dict__.update(h.__dict__)
+                h2.repo = r2
+                qs2 = ask(h2)
+                if kind:
+                    # questions across the boundary: every covered commit against commits outside
+                    inside, outside = set(cover), [c for c in full if c not in cover]
+                    for _ in range(12):
+                        a, o = rng.choice(cover), rng.choice(outside)
+                        qs2.append(L.q_ff(h2, a, o))
+                        qs2.append(L.q_ff(h2, o, a))
+                        qs2.append(L.q_mb(h2, a, [o]))
+                    qs2.append(L.q_ind(h2, sorted({rng.choice(cover), rng.choice(outside), rng.choice(full)})))
+                    qs2.append(L.q_walk(h2, [rng.choice(outside)], [rng.choice(cover)]))
+                    qs2.append(L.q_walk(h2, [rng.choice(outside)], [], topo=1))
+                for q in qs2:
+                    ok, _ = ex.check(q)
+                    q["pre"] = 1 if ok else 0
+                    q["cg"] = tag
+                    if not ok:
+                        q["m"] = 1
+                res["cg"] += len(qs2)
+                res["mismatch"] += sum(1 for q in qs2 if q["pre"] == 0)
+                rec2 = h2.record(0, qs2)
+                rec2["mode"] = None
+                rec2["salt"] = seed
+                rec2["cgw"] = tag
+                rec2["cg"] = sorted(cover)
+                recs.append(rec2)
+                r2.close()
         repo.close()
     res["records"] = recs
     return res
+
+
+def write_commit_graph_file(root, repo, h, par, writer, cover):
+    """(Re)write objects/info/commit-graph so that it covers exactly the down-closed set `cover`."""
+    path = os.path.join(root, "objects", "info", "commit-graph")
+    if os.path.exists(path):
+        os.remove(path)
+    inside = set(cover)
+    tips = [c for c in cover if not any(c in par[d - 1] for d in inside)]
+    if writer == "dulwich":
+        repo.object_store._commit_graph = None
+        repo.object_store.write_commit_graph([h.ids[c - 1] for c in tips], reachable=True)
+    else:
+        subprocess.run(["git", "-C", root, "commit-graph", "write", "--stdin-commits"], check=True, capture_output=True,
+                       input=b"".join(h.ids[c - 1] + b"\n" for c in tips))
 
 
 class GitOracle:
@@ -485,7 +524,7 @@ def judge(ctx, records, usemin, reduce, label):
     keep = ("k", "a", "b", "d", "s", "i", "e", "topo", "rev", "since", "until", "max", "r", "base", "m", "g")
     lines = []
     for r in records:
-        o = {"tid": r["tid"], "par": r["par"], "ts": r["ts"], "rank": r["rank"],
+        o = {"tid": r["tid"], "par": r["par"], "ts": r["ts"], "rank": r["rank"], "cg": r.get("cg") or [],
              "q": [{k: q[k] for k in keep if k in q} for q in r["q"]]}
         line = json.dumps(o, separators=(",", ":"))
         lines.append((len(line) * (1 + len(r["par"]) / 12.0), line))
@@ -564,6 +603,9 @@ def report(ctx, judged):
             cg = (cg + "," if cg else "") + "shallow-or-graft-view"
         key = (L.SITES[q["k"]], clause, detail, clock, how, cg)
         s, size = L.describe(r["par"], r["ts"], q)
+        if r.get("cg"):         # extent of the commit-graph, in the numbering of the printed case
+            keep = L.relevant(r["par"], q)
+            s += f",commit-graph-covers={[i + 1 for i, c in enumerate(keep) if c in set(r['cg'])]}".replace(" ", "")
         g = groups.get(key)
         if g is None:
             groups[key] = [1, size, s, r, q]
@@ -578,7 +620,8 @@ def report(ctx, judged):
         what = (f"{clause}: {site.split(':')[1]} does not give the graph-theoretic answer ({detail}; clock of the part of "
                 f"history involved: {clock}; {how}); {cnt} failing queries in this run, smallest: {s}")
         ctx.violation(sig, what, {"clause": clause, "detail": detail, "clock": clock, "how": how, "count": cnt,
-                                  "record": {k: r[k] for k in ("par", "ts", "rank", "mode", "cuts", "obj_par") if k in r} | {"salt": r.get("salt", 0), "cg": r.get("cg", "")},
+                                  "record": {k: r[k] for k in ("par", "ts", "rank", "mode", "cuts", "obj_par") if k in r}
+                                  | {"salt": r.get("salt", 0), "cgw": r.get("cgw", q.get("cg", "")), "cg": r.get("cg", [])},
                                   "query": q, "case": s, "variant": ctx.cov.get("graph_py_variant", {})})
     ctx.cov.setdefault("failing_groups", []).extend(
         [{"group": "|".join(x for x in k if x), "count": v[0], "smallest": v[2]} for k, v in sorted(groups.items())])
@@ -768,7 +811,10 @@ def replay(ctx, path):
     ts = tuple(rec["ts"])
     repo = None
     d = ctx.tmpdir("replay")
-    if rec.get("cg"):
+    cgw = rec.get("cgw") or ""
+    cover = rec.get("cg") or list(range(1, len(par) + 1))
+    on_disk = bool(cgw) and cgw != "dulwich-memory"
+    if on_disk:
         from dulwich.repo import Repo
         root = os.path.join(d, "disk")
         os.makedirs(root)
@@ -780,15 +826,14 @@ def replay(ctx, path):
     par = h.par
     if cuts:
         print(f"repository view differs from the commit objects: {cuts}")
-    if rec.get("cg"):
+    if cgw:
+        print(f"commit-graph: {cgw}, covering commits {cover}")
+    if on_disk:
         from dulwich.repo import Repo
-        if rec["cg"] == "dulwich":
-            repo.object_store.write_commit_graph(list(h.ids))
-        else:
-            for c in range(1, h.n + 1):
-                repo.refs[b"refs/heads/t%d" % c] = h.ids[c - 1]
-            subprocess.run(["git", "-C", root, "commit-graph", "write", "--reachable"], check=True, capture_output=True)
+        write_commit_graph_file(root, repo, h, par, cgw.split("-")[0], cover)
         h.repo = Repo(root)
+    elif cgw:
+        L.attach_commit_graph(h, cover)
     k = q["k"]
     if k == "mb":
         q2 = L.q_mb(h, q["a"], q["d"])
@@ -809,6 +854,7 @@ def replay(ctx, path):
     print(f"question: {L.describe(par, ts, q2)[0]}")
     print(f"real answer now: {q2['r']}   (recorded: {q['r']})" + (f"  exception: {q2['exc']}" if "exc" in q2 else ""))
     r = h.record(1, [q2])
+    r["cg"] = cover if cgw else []
     r["mode"] = rec.get("mode")
     ctx.known = []
     um = obj.get("variant", {}).get("UseMinStamp", True)
